@@ -314,7 +314,7 @@ def convo_ref_client(ctx, rng, idx):
         for op in script:
             steps += 1
             if op == "callattr":
-                a, b = gen.gen_int(rng), gen.gen_int(rng)
+                a, b = rng.randrange(-2 ** 70, 2 ** 70), rng.choice([0, 1, -49, 160, 10 ** 300, rng.randrange(-2 ** 40, 2 ** 40)])
                 m = peer.request(H["CALLATTR"], root, "add", (a, b), ())
                 expect(m["kind"] == rc.MSG_REPLY and m["args"] == (rc.LABEL_VALUE, a + b), "callattr-reply",
                        "CALLATTR add: wrong reply", got=repr(m["args"])[:200])
@@ -433,7 +433,7 @@ def convo_ref_server(ctx, rng, idx):
         r = conn.root
         for op in script:
             if op == "add":
-                a, b = gen.gen_int(rng), gen.gen_int(rng)
+                a, b = rng.randrange(-2 ** 70, 2 ** 70), rng.choice([0, 1, -49, 160, 10 ** 300, rng.randrange(-2 ** 40, 2 ** 40)])
                 if r.add(a, b) != a + b:
                     bad.append(("add", "wrong sum through reference server"))
             elif op == "kwargs":
